@@ -80,6 +80,14 @@ func genThemedLibJob(r *Rand, k int, allowLoad bool, theme string) LibJob {
 			j.Expr = Pick(r, []string{".rows | @csv", ".rows | @tsv", ".rows | to_csv"})
 			return j
 		}
+		if theme == "nullinput" {
+			j.API = Pick(r, []string{"new", "new", "allnew"})
+			j.InFmt, j.OutFmt = "yaml", Pick(r, []string{"yaml", "json0"})
+			j.Input = Bytes("")
+			j.DecSlot, j.EncSlot = r.Intn(2), r.Intn(2)
+			j.Expr = Pick(r, ExprThemes[theme])
+			return j
+		}
 		if theme == "encoderprefs" {
 			// encoders (and decoders) built with different preferences, or taken from the format registry, side by side
 			j.API = Pick(r, []string{"stream", "stream", "all"})
